@@ -547,3 +547,102 @@ Proof.
   - right. eauto.
   - left. reflexivity.
 Qed.
+
+(* ------------------------------------------------------------------------------------------ *)
+(* the written file is valid UTF-8 again and decodes to the rewritten text                      *)
+(* ------------------------------------------------------------------------------------------ *)
+
+Lemma emit_formats cfg code pre1 it e :
+  item_step cfg code pre1 it = Emit e ->
+  (e_prefix e = None /\ e_suffix e = None) \/
+  (e_prefix e = Some ref_eq /\ (e_suffix e = Some [44; 32] \/ e_suffix e = Some [59; 32])).
+Proof.
+  intros H. destruct it as [n l us|n a|n|c]; cbn [item_step] in H; try discriminate.
+  - unfold stmt_step in H.
+    destruct (directive_check the_params (p_ignore the_params) code (blen pre1) (p_comment_re the_params)) as [[|]|]; try discriminate.
+    destruct (negb (macro_of_interest (render_name n) cfg)); try discriminate.
+    destruct (if cfg_structured cfg then _ else _) as [nk|]; try discriminate.
+    destruct (cfg_structured cfg && negb nk); injection H as <-; cbn [e_prefix e_suffix].
+    + right. split; [reflexivity|right; reflexivity].
+    + left. split; reflexivity.
+  - unfold stmt_stepA in H.
+    destruct (directive_check the_params (p_ignore the_params) code (blen pre1) (p_comment_re the_params)) as [[|]|]; try discriminate.
+    destruct (negb (macro_of_interest (render_name n) cfg)); try discriminate.
+    destruct (if cfg_structured cfg then _ else _) as [nk|]; try discriminate.
+    destruct (cfg_structured cfg && negb nk).
+    + destruct (ref_more _ _) as [[prev vt]|].
+      { injection H as <-. left. split; reflexivity. }
+      destruct (a_targ a); injection H as <-; cbn [e_prefix e_suffix]; right; (split; [reflexivity|]);
+        destruct (a_kvs a); [left|right|left|right]; reflexivity.
+    + injection H as <-. left. split; reflexivity.
+Qed.
+
+Lemma dec_ascii id c : In c (dec id) -> c < 128.
+Proof.
+  intros H. destruct (dec_spec id) as (_ & Hd & _). rewrite forallb_forall in Hd. specialize (Hd c H).
+  unfold is_ascii_digit in Hd. apply andb_true_iff in Hd. destruct Hd as [_ Hd]. apply N.leb_le in Hd. lia.
+Qed.
+
+Lemma insertable_ascii cfg code pre1 it e id c :
+  item_step cfg code pre1 it = Emit e -> In c (insertable the_params e id) -> c < 128.
+Proof.
+  intros H Hin. destruct (emit_formats cfg code pre1 it e H) as [[Hp Hs]|[Hp Hs]].
+  - rewrite (default_token_insertable e id Hp Hs) in Hin. unfold default_token in Hin.
+    apply in_app_or in Hin. destruct Hin as [Hin|Hin].
+    + cbn in Hin. repeat (destruct Hin as [<-|Hin]; [lia|]). contradiction.
+    + apply in_app_or in Hin. destruct Hin as [Hin|Hin]; [exact (dec_ascii id c Hin)|].
+      cbn in Hin. repeat (destruct Hin as [<-|Hin]; [lia|]). contradiction.
+  - assert (Hi : exists s, insertable the_params e id = (ref_eq ++ dec id ++ s)%list /\ (s = [44; 32] \/ s = [59; 32])).
+    { destruct Hs as [Hs|Hs]; eexists; (split; [apply insertable_new; [rewrite Hp; reflexivity|exact Hs]|]); tauto. }
+    destruct Hi as (s & Hi & Hs'). rewrite Hi in Hin.
+    apply in_app_or in Hin. destruct Hin as [Hin|Hin].
+    + cbn in Hin. repeat (destruct Hin as [<-|Hin]; [lia|]). contradiction.
+    + apply in_app_or in Hin. destruct Hin as [Hin|Hin]; [exact (dec_ascii id c Hin)|].
+      destruct Hs' as [-> | ->]; cbn in Hin; repeat (destruct Hin as [<-|Hin]; [lia|]); contradiction.
+Qed.
+
+(* every character of the rewritten text is a character of the old text or an ASCII character of an inserted reference *)
+Lemma retoken_chars cfg code fin : forall its pre ctr c,
+  In c (render_items (retoken cfg code its pre ctr) fin) -> In c (render_items its fin) \/ c < 128.
+Proof.
+  induction its as [|[l it] r IH]; intros pre ctr c Hin; cbn [retoken] in Hin; [left; exact Hin|]. cbv zeta in Hin.
+  set (pre1 := (pre ++ render_lay l)%list) in *.
+  assert (Hsame : forall ctr', In c (render_items ((l, it) :: retoken cfg code r (pre1 ++ render_item it) ctr') fin) ->
+                               In c (render_items ((l, it) :: r) fin) \/ c < 128).
+  { intros ctr' H. cbn [render_items] in *. apply in_app_or in H. destruct H as [H|H]; [left; apply in_or_app; left; exact H|].
+    apply in_app_or in H. destruct H as [H|H]; [left; apply in_or_app; right; apply in_or_app; left; exact H|].
+    destruct (IH _ _ _ H) as [H'|H']; [left; apply in_or_app; right; apply in_or_app; right; exact H'|right; exact H']. }
+  destruct (item_step cfg code pre1 it) as [|e|] eqn:Est; try exact (Hsame _ Hin).
+  destruct (missing_insert e) eqn:Em; [|exact (Hsame _ Hin)].
+  destruct (step_split cfg code pre1 it e Est Em) as (_ & t & Hit & _ & Hnew).
+  cbn [render_items] in *. rewrite (Hnew ctr) in Hin. rewrite Hit.
+  apply in_app_or in Hin. destruct Hin as [H|H]; [left; apply in_or_app; left; exact H|].
+  apply in_app_or in H. destruct H as [H|H].
+  - apply in_app_or in H. destruct H as [H|H]; [left; apply in_or_app; right; apply in_or_app; left; apply in_or_app; left; exact H|].
+    apply in_app_or in H. destruct H as [H|H]; [right; exact (insertable_ascii cfg code pre1 it e ctr c Est H)|].
+    left. apply in_or_app; right. apply in_or_app; left. apply in_or_app; right. exact H.
+  - destruct (IH _ _ _ H) as [H'|H']; [left; apply in_or_app; right; apply in_or_app; right; exact H'|right; exact H'].
+Qed.
+
+Lemma scalar_ascii c : c < 128 -> scalar c = true.
+Proof. intros H. unfold scalar. destruct (N.ltb_spec c 55296); [reflexivity|lia]. Qed.
+
+(* After an edit run a readable canonical file is READABLE again, and its text is the rewritten canonical text *)
+Theorem canonical_file_rewritten_text rc files lk o j b its fin :
+  files <> [] -> nth_error files j = Some b ->
+  utf8_decode b = Some (render_items its fin) -> items_ok its fin -> o_rfail2 o j = false ->
+  let new := nth_error (w_src (apply_effs (mkWorld files [] lk)
+                                  (ro_effs (run_edit the_params find c_START_REFERENCE_ID rc (Some files) lk o)))) j in
+  exists b', new = Some b' /\
+    (utf8_decode b' = Some (render_items its fin) \/
+     exists c0, utf8_decode b' = Some (render_items (retoken (rc_cfg rc) (render_items its fin) its [] c0) fin)).
+Proof.
+  intros Hne Hj Hd Hok Hrf. cbv zeta.
+  destruct (canonical_file_rewritten rc files lk o j b its fin Hne Hj Hd Hok Hrf) as [H|(c0 & H)].
+  - exists b. split; [exact H|left; exact Hd].
+  - eexists. split; [exact H|right]. exists c0. apply encode_decode.
+    apply forallb_forall. intros c Hc.
+    destruct (retoken_chars _ _ _ _ _ _ _ Hc) as [Hc'|Hc'].
+    + pose proof (decode_scalars _ _ Hd) as Hsc. rewrite forallb_forall in Hsc. exact (Hsc c Hc').
+    + exact (scalar_ascii c Hc').
+Qed.
